@@ -172,9 +172,9 @@ func init() {
 			"hosts given to FlattenProperties carry a specific type name (the generic names are exercised through the typed functions)"},
 		Bound: func(tier string) string {
 			if tier == "thorough" {
-				return "single positions complete; addressing lists of length <= 4; addressing lists of 8..65 members of distinct ids (3 without id); the same identities in every ordered pair of addressing lists"
+				return "single positions complete; addressing lists of length <= 4; addressing lists of 8..65 members of distinct ids (3 without id); the same identities in every ordered pair of addressing lists; plain IRIs in other spellings (as:Public, the full Public IRI, an IPv6 literal host) among the entries"
 			}
-			return "single positions complete; addressing lists of length <= 3; addressing lists of 8..65 members of distinct ids (3 without id); the same identities in every ordered pair of addressing lists"
+			return "single positions complete; addressing lists of length <= 3; addressing lists of 8..65 members of distinct ids (3 without id); the same identities in every ordered pair of addressing lists; plain IRIs in other spellings (as:Public, the full Public IRI, an IPv6 literal host) among the entries"
 		},
 		DeadlineQuick: 5 * time.Minute,
 		Run:           c16Run,
